@@ -67,6 +67,9 @@ func parseTime(in string) (time.Time, error) {
 	var nsec int
 	if c == '.' || c == ',' {
 		remaining = remaining[1:]
+		if len(remaining) == 0 {
+			return time.Time{}, fmt.Errorf("too short to contain fractional seconds")
+		}
 		// Fractional seconds!
 		var val, i int
 		var c rune
